@@ -26,8 +26,9 @@ func (g *vcgen) loadFieldIn(s *State, base string, st types.Type, idx int) strin
 			key := "wf:" + term
 			if !g.declared[key] {
 				g.declared[key] = true
+				// only for objects that existed at entry: locations of objects allocated later are unconstrained
 				if f := g.typeFacts(term, ft, g.base("G.alloc")); f != "true" {
-					g.emit("(assert " + f + ")")
+					g.emit(fmt.Sprintf("(assert (=> (<= %s %s) %s))", base, g.base("G.alloc"), f))
 				}
 			}
 		}
